@@ -40,6 +40,8 @@ from cfdppy.exceptions import (
     InvalidDestinationId,
     InvalidPduDirection,
     InvalidPduForDestHandler,
+    InvalidSourceId,
+    InvalidTransactionSeqNum,
     NoRemoteEntityCfgFound,
     PduIgnoredForDest,
     PduIgnoredForDestReason,
@@ -414,6 +416,10 @@ class DestHandler:
             The PDU destination entity ID is not equal to the configured local ID.
         InvalidPduForDestHandler
             The PDU type can not be handled by the destination handler
+        InvalidSourceId
+            The PDU belongs to a transaction of another source entity than the active transaction.
+        InvalidTransactionSeqNum
+            The PDU belongs to another transaction than the active one.
         PduIgnoredForDest
             The PDU was ignored because it can not be handled for the current transmission mode or
             internal state.
@@ -439,6 +445,16 @@ class DestHandler:
             raise NoRemoteEntityCfgFound(entity_id=packet.dest_entity_id)
         if get_packet_destination(packet) == PacketDestination.SOURCE_HANDLER:
             raise InvalidPduForDestHandler(packet)
+        if self.states.state == CfdpState.BUSY and self._params.transaction_id is not None:
+            # The handler processes one transaction at a time, PDUs of other transactions do not
+            # belong to it.
+            transaction_id = self._params.transaction_id
+            if packet.source_entity_id.value != transaction_id.source_id.value:
+                raise InvalidSourceId(transaction_id.source_id, packet.source_entity_id)
+            if packet.transaction_seq_num.value != transaction_id.seq_num.value:
+                raise InvalidTransactionSeqNum(
+                    transaction_id.seq_num, packet.transaction_seq_num
+                )
         if (self.states.state == CfdpState.IDLE) and (
             packet.pdu_type == PduType.FILE_DATA
             or packet.directive_type != DirectiveType.METADATA_PDU  # type: ignore
